@@ -685,6 +685,76 @@ def main():
       stats = gr.own_stats(mb, gg.random_inputs(mb, rng, 1))
       yield mb, qt, stats, desc, dict(info, real_stats=True, directed='unsupported-config-through-star-rule')
 
+  def blockwise_check(mb, out_bytes, inputs):
+    """the model returned for a BLOCKWISE (op replacement) request: the interpreter
+    runs it and every output stays within the analytic weight-rounding bound of
+    the float model's (each reader of the constant observes it within a step)"""
+    bad = []
+    rf = og.run_interpreter(mb, {k: v[0] for k, v in inputs.items()})
+    rq = og.run_interpreter(out_bytes, {k: v[0] for k, v in inputs.items()})
+    if rf[0] != 'ok':
+      return bad
+    if rq[0] != 'ok':
+      return [{'key': 'C15:blockwise-shared-constant-unloadable', 'what':
+               f'quantize() returned a model the interpreter rejects: {str(rq[1])[:200]}'}]
+    m_in = og.read(mb)
+    g = m_in.subgraphs[0]
+    wt = [t for t in g.tensors if og.is_const(m_in, t) and len(t.shape) == 2][0]
+    w = np.frombuffer(bytes(m_in.buffers[wt.buffer].data), dtype=np.float32)
+    # byte level: an operator that still reads the constant TENSOR directly beside a
+    # float activation must find float data of the original shape there
+    m_out = og.read(out_bytes)
+    go = m_out.subgraphs[0]
+    for oi, o in enumerate(go.operators):
+      if m_out.operatorCodes[o.opcodeIndex].builtinCode != 9 or len(o.inputs) < 2:   # FULLY_CONNECTED
+        continue
+      a, c = go.tensors[int(o.inputs[0])], go.tensors[int(o.inputs[1])]
+      if og.tname(c) == og.tname(wt) and a.type == F32 and (c.type != F32 or list(c.shape) != list(wt.shape)):
+        bad.append({'key': 'C15:float-consumer-reads-integer-bytes', 'what':
+                    f'op{oi} FULLY_CONNECTED reads {og.tname(c)} of dtype {c.type} shape {list(c.shape)} '
+                    'beside a float activation'})
+    x = np.abs(np.asarray(list(inputs.values())[0][0]['x'], dtype=np.float64))
+    if x.shape[1] != 1:
+      # rows beyond the first: the interpreter's hybrid BATCH_MATMUL with a broadcast
+      # constant operand disagrees with the (correct) arithmetic of the emitted
+      # pattern -- interpreter numerics, not the quantizer's (DESIGN 11, observation O3)
+      return bad
+    bound = float(x.sum(axis=-1).max()) * float(np.abs(w).max()) / 127.0 * 0.51 + 1e-4
+    for key in rf[1]:
+      for name, yf in rf[1][key].items():
+        yq = rq[1][key].get(name)
+        if yq is None or yq.shape != yf.shape or not np.all(np.isfinite(yq)) or \
+            float(np.max(np.abs(yq - yf))) > bound:
+          err = None if yq is None or yq.shape != yf.shape else float(np.max(np.abs(yq - yf)))
+          bad.append({'key': 'C15:shared-constant-consumer-mismatch', 'what':
+                      f'output {name}: |quantized - float| = {err} > bound {bound:.5f} '
+                      '(a reader of the shared constant does not observe it within a step)'})
+    return bad
+
+  def directed_blockwise_tied(n):
+    """ONE weight tensor read by 1..3 FULLY_CONNECTED ops under a BLOCKWISE weight
+    config (op replacement, reachable with skip_checks): refused, or every reader
+    observes the constant within a step (C15)"""
+    if os.environ.get('VERIF_PROP') != 'C15':
+      return
+    from ai_edge_quantizer import qtyping as _q
+    for i in range(n):
+      mb, info = gg.fc3d_tied_model(rng, n_readers=[2, 1, 3][i % 3])
+      qt = quantizer.Quantizer(bytearray(mb))
+      try:
+        qt.update_quantization_recipe(
+            '.*', 'FULLY_CONNECTED',
+            _q.OpQuantizationConfig(None, _q.TensorQuantizationConfig(
+                8, True, _q.QuantGranularity.BLOCKWISE, block_size=rng.choice([4, 8])),
+                                    _q.ComputePrecision.FLOAT, True, skip_checks=True),
+            'min_max_uniform_quantize')
+      except ValueError:
+        continue
+      inputs = gg.random_inputs(mb, rng, 1)
+      yield mb, qt, None, 'blockwise+skip_checks on a weight with %d readers' % [2, 1, 3][i % 3], dict(
+          info, real_stats=True, directed='blockwise-tied-weight', only='C15:',
+          custom=lambda mb_, ob_, inputs=inputs: blockwise_check(mb_, ob_, inputs))
+
   def directed_same_name_sharers(n):
     """constants tied across subgraphs whose tensors ALSO carry the same name
     (the layer exported under two signatures keeps its variable name) x one
@@ -732,7 +802,8 @@ def main():
       directed_same_name_sharers(300 if tier == 'thorough' else 30),
       directed_zp0(300 if tier == 'thorough' else 30),
       directed_unknown_reader(100 if tier == 'thorough' else 12),
-      directed_unsupported_star(60 if tier == 'thorough' else 8)):
+      directed_unsupported_star(60 if tier == 'thorough' else 8),
+      directed_blockwise_tied(60 if tier == 'thorough' else 9)):
     dist['cases'] += 1
     if info.get('directed'):
       dist['directed:' + info['directed']] += 1
@@ -743,7 +814,10 @@ def main():
       continue
     dist['returned'] += 1
     try:
-      bad = check_case(qt, mb, res.quantized_model, stats if info.get('real_stats') else stats, desc)
+      if info.get('custom'):
+        bad = info['custom'](mb, res.quantized_model)
+      else:
+        bad = check_case(qt, mb, res.quantized_model, stats if info.get('real_stats') else stats, desc)
     except Exception as e:  # pylint: disable=broad-except
       import traceback
       bad = [{'key': 'HARNESS:error', 'what': traceback.format_exc()[-600:]}]
